@@ -353,8 +353,8 @@ theorem layerC_env_own (E : Env) (fuel : Nat) (single : Bool) (ctx : Ctx) (q : P
       match lookupE (envVarAt E.root (q.info.path.map codes) (codes k)) E.vals with
       | some v => some v
       | .none => pickLast k (filesOf ctx q.info.dcfs) (lookup k q.info.opts) := by
-  obtain ⟨he, hn⟩ := loadEnvC_own E (layerC E fuel single ctx .env) q k hk hko hcfg
-  have hl : leafAt k (loadEnvC E (layerC E fuel single ctx .env) q) = true := by
+  obtain ⟨he, hn⟩ := loadEnvC_own E (layerEO E fuel single) q k hk hko hcfg
+  have hl : leafAt k (loadEnvC E (layerEO E fuel single) q) = true := by
     unfold leafAt
     rw [he]
     cases hv : lookupE (envVarAt E.root (q.info.path.map codes) (codes k)) E.vals with
@@ -362,13 +362,41 @@ theorem layerC_env_own (E : Env) (fuel : Nat) (single : Bool) (ctx : Ctx) (q : P
     | some v =>
       have := hleaf v hv
       cases v <;> simp_all [Val.isSec]
-  have key : lookup k (merge (loadEnvC E (layerC E fuel single ctx .env) q) (getDefaultsC single ctx q)) =
+  have key : lookup k (merge (loadEnvC E (layerEO E fuel single) q) (getDefaultsC single ctx q)) =
       match lookupE (envVarAt E.root (q.info.path.map codes) (codes k)) E.vals with
       | some v => some v
       | .none => pickLast k (filesOf ctx q.info.dcfs) (lookup k q.info.opts) := by
     rw [lookup_merge_leaf k _ _ hn hl, he, getDefaultsC_own single ctx q k hk hm hf]
     cases lookupE (envVarAt E.root (q.info.path.map codes) (codes k)) E.vals <;> rfl
   rw [layerC]
+  split
+  · rename_i c hc
+    rw [parseCommon_frame _ _ false q _ c hc k hk]
+    exact key
+  · exact key
+
+/-- the ENVIRONMENT-ONLY `parse_env` (`defaults=False`, fix a5d1a53) at an option: the value of its variable and nothing else —
+    no default, no default config file -/
+theorem layerEO_own (E : Env) (fuel : Nat) (single : Bool) (q : P) (k : String)
+    (hk : ownKey q k) (hko : k ∈ q.info.options)
+    (hcfg : ∀ ck, q.info.cfgKey = some ck →
+      lookupE (getEnvVar (prefixAt E.root (q.info.path.map codes)) (codes ck)) E.cfgs = .none)
+    (hleaf : ∀ v, lookupE (envVarAt E.root (q.info.path.map codes) (codes k)) E.vals = some v → v.isSec = false) :
+    lookup k (layerEO E (fuel + 1) single q) = lookupE (envVarAt E.root (q.info.path.map codes) (codes k)) E.vals := by
+  obtain ⟨he, hn⟩ := loadEnvC_own E (layerEO E fuel single) q k hk hko hcfg
+  have hl : leafAt k (loadEnvC E (layerEO E fuel single) q) = true := by
+    unfold leafAt
+    rw [he]
+    cases hv : lookupE (envVarAt E.root (q.info.path.map codes) (codes k)) E.vals with
+    | none => rfl
+    | some v =>
+      have := hleaf v hv
+      cases v <;> simp_all [Val.isSec]
+  have key : lookup k (merge (loadEnvC E (layerEO E fuel single) q) []) =
+      lookupE (envVarAt E.root (q.info.path.map codes) (codes k)) E.vals := by
+    rw [lookup_merge_leaf k _ _ hn hl, he]
+    cases lookupE (envVarAt E.root (q.info.path.map codes) (codes k)) E.vals <;> rfl
+  rw [layerEO]
   split
   · rename_i c hc
     rw [parseCommon_frame _ _ false q _ c hc k hk]
